@@ -24,6 +24,7 @@ import (
 	"fmt"
 	"reflect"
 	"runtime"
+	"strconv"
 	"strings"
 
 	"github.com/olive-io/bpmn/schema"
@@ -37,7 +38,7 @@ type class struct {
 	pointer bool            // supplied through a pointer
 	ptrptr  bool
 	base    string // shape without the pointer prefix (nil variants and pointer-to-pointer kept)
-	named   bool // named scalar type (type myInt int): kind-based code sees it, type switches do not
+	named   bool   // named scalar type (type myInt int): kind-based code sees it, type switches do not
 }
 
 func kindItem(k reflect.Kind) (schema.ItemType, string) {
@@ -289,6 +290,13 @@ func expect(v any) want {
 		w.alts = []any{int64(rv.Uint())}
 	case reflect.Float32, reflect.Float64:
 		w.alts = []any{rv.Float()}
+		if rv.Kind() == reflect.Float32 {
+			// as inside containers: the float64 nearest to the float32's shortest decimal
+			// (what encoding/json and %v print for a float32) is the same value in canonical form
+			if f, err := strconv.ParseFloat(strconv.FormatFloat(rv.Float(), 'g', -1, 32), 64); err == nil && f != rv.Float() {
+				w.alts = append(w.alts, f)
+			}
+		}
 	case reflect.String:
 		w.alts = []any{rv.String()}
 	case reflect.Bool:
@@ -328,10 +336,10 @@ func topEqual(got, alt any) bool {
 func (w want) check(gotType schema.ItemType, got any) (clause, shape, detail string) {
 	if w.empty {
 		if !isEmptyValue(got) {
-			return "value-changed", w.cls.shape, fmt.Sprintf("empty value read back as %#v", got)
+			return "value-changed", w.cls.base, fmt.Sprintf("empty value read back as %#v", got)
 		}
 		if gotType != "" && gotType != w.cls.item {
-			return "wrong-item-type", w.cls.shape, fmt.Sprintf("item type %q for an empty value of class %q", gotType, w.cls.item)
+			return "wrong-item-type", w.cls.base, fmt.Sprintf("item type %q for an empty value of class %q", gotType, w.cls.item)
 		}
 		return "", "", ""
 	}
@@ -343,18 +351,15 @@ func (w want) check(gotType schema.ItemType, got any) (clause, shape, detail str
 		}
 	}
 	if gotType == "" && isEmptyValue(got) {
-		return "value-lost", w.cls.shape, fmt.Sprintf("nothing stored: item type \"\" and value %s read back, want %s", show(got), show(w.alts[0]))
+		return "value-lost", w.cls.base, fmt.Sprintf("nothing stored: item type \"\" and value %s read back, want %s", show(got), show(w.alts[0]))
 	}
 	if gotType != w.cls.item {
-		return "wrong-item-type", w.cls.shape, fmt.Sprintf("item type %q, want %q (value read back %s)", gotType, w.cls.item, show(got))
+		return "wrong-item-type", w.cls.base, fmt.Sprintf("item type %q, want %q (value read back %s)", gotType, w.cls.item, show(got))
 	}
 	if !okv {
-		shape := w.cls.shape
+		shape := w.cls.base
 		if _, isF := got.(float64); isF && w.cls.item == schema.ItemTypeFloat {
 			shape = "float-precision"
-			if w.cls.pointer {
-				shape = "pointer-to-float-precision"
-			}
 		}
 		return "value-changed", shape, fmt.Sprintf("read back %s, want %s", show(got), show(w.alts[0]))
 	}
